@@ -926,11 +926,12 @@ func (c *callable) Native() *NativeFunction {
 // native code and passed to a native code.
 func (c *callable) Value(env *env) reflect.Value {
 	if c.value.IsValid() {
+		c.value = withoutEnv(c.value, env)
 		return c.value
 	}
 	if c.native != nil {
 		// It is a native function.
-		c.value = reflect.ValueOf(c.native.function)
+		c.value = withoutEnv(reflect.ValueOf(c.native.function), env)
 		return c.value
 	}
 	// It is a Scriggo function.
@@ -977,6 +978,45 @@ func (c *callable) Value(env *env) reflect.Value {
 		return results
 	})
 	return c.value
+}
+
+// withoutEnv returns the native function value v as a value of the function
+// type that the Scriggo code sees: the environment parameter, that callNative
+// passes by itself, is not part of that type. If v has no environment
+// parameter, withoutEnv returns v.
+func withoutEnv(v reflect.Value, env *env) reflect.Value {
+	typ := v.Type()
+	numIn := typ.NumIn()
+	isEnv := func(i int) bool { return i < 2 && typ.In(i) == envType }
+	if !(numIn > 0 && isEnv(0)) && !(numIn > 1 && isEnv(1)) || v.IsNil() {
+		return v
+	}
+	in := make([]reflect.Type, 0, numIn)
+	for i := range numIn {
+		if !isEnv(i) {
+			in = append(in, typ.In(i))
+		}
+	}
+	out := make([]reflect.Type, typ.NumOut())
+	for i := range out {
+		out[i] = typ.Out(i)
+	}
+	envArg := reflect.ValueOf(env)
+	return reflect.MakeFunc(reflect.FuncOf(in, out, typ.IsVariadic()), func(args []reflect.Value) []reflect.Value {
+		all := make([]reflect.Value, 0, numIn)
+		for i := range numIn {
+			if isEnv(i) {
+				all = append(all, envArg)
+			} else {
+				all = append(all, args[0])
+				args = args[1:]
+			}
+		}
+		if typ.IsVariadic() {
+			return v.CallSlice(all)
+		}
+		return v.Call(all)
+	})
 }
 
 func packageName(pkg string) string {
